@@ -36,7 +36,8 @@ class VirtualPool:
     schedule = None          # list of partitions (per stage) or None -> every task in its own worker
     stage = 0
     log = None               # optional list collecting (stage, n_tasks, partition)
-    task_hook = None         # optional callable(stage, task_index) executed in the worker before the task
+    task_hook = None         # optional callable(stage, task_index) executed in the worker before the task; may return "skip"
+    kill_main_after_stage = None   # stage index after whose workers the main process dies too (a kill of the whole run)
 
     def __init__(self, max_workers=None, *a, **kw):
         self.max_workers = max_workers
@@ -78,7 +79,8 @@ class VirtualPool:
                     for i in block:
                         try:
                             if VirtualPool.task_hook is not None:
-                                VirtualPool.task_hook(stage, i)
+                                if VirtualPool.task_hook(stage, i) == "skip":
+                                    continue          # this worker never got to start the task before the run was killed
                             out.append((i, True, fn(*tasks[i])))
                         except BaseException as e:  # noqa
                             out.append((i, False, (repr(e), traceback.format_exc())))
@@ -98,9 +100,13 @@ class VirtualPool:
                 data = f.read()
             _, status = os.waitpid(pid, 0)
             if not data:
+                if VirtualPool.kill_main_after_stage == stage:
+                    continue              # the worker was killed at its crash point; the whole run dies below
                 raise RuntimeError("VPOOL worker for block %r died (status %r)" % (block, status))
             for i, ok, val in pickle.loads(data):
                 results[i] = (ok, val)
+        if VirtualPool.kill_main_after_stage == stage:
+            os._exit(137)
 
         def gen():
             for i in range(n):
@@ -113,11 +119,12 @@ class VirtualPool:
         return gen()
 
 
-def install(schedule, log=None, task_hook=None):
+def install(schedule, log=None, task_hook=None, kill_main_after_stage=None):
     """to be called inside the forked IsoQuant child (pre_hook)"""
     import src.dataset_processor as DP
     VirtualPool.schedule = schedule
     VirtualPool.stage = 0
     VirtualPool.log = log
     VirtualPool.task_hook = task_hook
+    VirtualPool.kill_main_after_stage = kill_main_after_stage
     DP.ProcessPoolExecutor = VirtualPool
